@@ -203,7 +203,10 @@ def evaluate(P, cases, stats):
             if py['HARNESS'] == 'crash':
                 findings.append(dict(case=c, cls='prop', key='import/crash', py=py.get('stderr', '')[-800:], model=''))
                 continue
-            raise Infra('harness error on case %s: %s' % (c, py['HARNESS']))
+            # an exception that escaped the executor on this case: an infrastructure problem (exit 2) — but, as with time-outs, the
+            # remaining cases are still evaluated: if the property's own predicate fails on one of them, that is what gets reported
+            timeouts.append('harness error on case %s: %s' % (c, py['HARNESS']))
+            continue
         for f in P.compare(parse(c), py, mo, stats):
             f['case'] = c
             findings.append(f)
